@@ -59,6 +59,10 @@ def arc_job(job):
         rx, ry = rx * (1 - 1e-9), ry * (1 - 1e-9)
     elif mode == "neg":
         rx, ry = -rx, -ry
+    elif mode == "negx":                 # F.6.6: the absolute value of EACH radius is used
+        rx = -rx
+    elif mode == "negy":
+        ry = -ry
     elif mode == "zero":
         rx, cls = 0.0, "zeroradius"
     if s == e:
@@ -118,6 +122,11 @@ def jobs_for(tier, rng):
                              rng.choice([0, 90, "345"]), 0, mode))
         for s in pts[:4]:
             jobs.append((r, (0, 0), s, pts[3], 0, 1, 1, 1, 0, 0, "neg"))
+        for s in pts[:6]:
+            for e in pts[2:5]:
+                for large, sweep in itertools.product((0, 1), repeat=2):
+                    for mode in ("negx", "negy"):
+                        jobs.append((r, (0, 0), s, e, large, sweep, rng.choice([1, 2]), 1, rng.choice([0, 90, "345"]), 0, mode))
     return jobs
 
 
